@@ -519,6 +519,9 @@ func ParseNodeString(node string) (*NodeID, string) {
 		return nil, ""
 	}
 	nodeID := BytesToNodeID(common.FromHex(trunks[0]))
+	if nodeID == nil {
+		return nil, ""
+	}
 	_, err := nodeID.PubKey()
 	if err != nil {
 		return nil, ""
